@@ -225,35 +225,39 @@ func fieldIndex(t types.Type, name string) int {
 	panic("no field " + name + " in " + t.String())
 }
 
-func (i *Interp) mutexOf(p *value) *mutexState {
+// The lock bit of a sync.Mutex is kept in the interpreted struct itself (field
+// "state"), so that copying or zeroing the struct behaves as in Go.
+func (i *Interp) mutexCell(p *value) *value {
 	if p == nil {
 		i.rtPanic("invalid memory address or nil pointer dereference (nil *sync.Mutex)")
 	}
-	m := i.mutexes[p]
-	if m == nil {
-		m = &mutexState{}
-		i.mutexes[p] = m
+	return &(*p).(structure)[0]
+}
+
+func mutexLocked(c *value) bool {
+	switch v := (*c).(type) {
+	case int32:
+		return v != 0
 	}
-	return m
+	return false
 }
 
 func (i *Interp) mutexLock(p *value) {
-	m := i.mutexOf(p)
+	c := i.mutexCell(p)
 	i.schedPoint("Mutex.Lock")
-	if m.locked {
-		i.block(func() bool { return !m.locked }, "Mutex.Lock")
+	if mutexLocked(c) {
+		i.block(func() bool { return !mutexLocked(c) }, "Mutex.Lock")
 	}
-	m.locked = true
-	m.owner = i.cur.id
+	*c = int32(1)
 	i.noteSync("lock", p)
 }
 
 func (i *Interp) mutexUnlock(p *value) {
-	m := i.mutexOf(p)
-	if !m.locked {
+	c := i.mutexCell(p)
+	if !mutexLocked(c) {
 		panic(targetPanic{iface{t: i.runtimeErrorString, v: "fatal error: sync: unlock of unlocked mutex"}})
 	}
-	m.locked = false
+	*c = int32(0)
 	i.noteSync("unlock", p)
 	i.schedPoint("Mutex.Unlock")
 }
@@ -275,12 +279,11 @@ func init() {
 			return nil
 		},
 		"(*sync.Mutex).TryLock": func(fr *frame, args []value) value {
-			m := fr.i.mutexOf(args[0].(*value))
-			if m.locked {
+			c := fr.i.mutexCell(args[0].(*value))
+			if mutexLocked(c) {
 				return false
 			}
-			m.locked = true
-			m.owner = fr.i.cur.id
+			*c = int32(1)
 			return true
 		},
 		"sync.NewCond": func(fr *frame, args []value) value {
